@@ -367,6 +367,8 @@ func extraHeaders(h http.Header, xh string) {
 		h.Set("Connection", "upgrade")
 	case "ka":
 		h.Set("Connection", "keep-alive")
+	case "text": // application/grpc-web-text (base64 body): not supported by the bridge, dispatched like application/grpc-web
+		h.Set("Content-Type", "application/grpc-web-text")
 	}
 }
 
@@ -558,7 +560,7 @@ var (
 )
 
 // trailer metadata keys the forwarder's filter lets through (the filter itself is C07's subject)
-var allowTrailer = []string{"x-t", "x-u", "grpc-status", "grpc-message"}
+var allowTrailer = []string{"x-t", "x-u", "grpc-status", "grpc-message", "x-bin", "grpc-status-details-bin"}
 
 func servers() {
 	srvOnce.Do(func() {
@@ -1530,8 +1532,42 @@ func genScript(r *rand.Rand, codec string) string {
 		tm = CB([]byte("x-t")) + ":" + CB([]byte("a b")) + "," + CB([]byte("x-t")) + ":" + CB([]byte("c")) + "," + CB([]byte("x-u")) + ":" + CB(nil)
 	case 2:
 		tm = CB([]byte("grpc-status")) + ":" + CB([]byte("0")) + "," + CB([]byte("grpc-message")) + ":" + CB([]byte("fake"))
+	case 3:
+		tm = genTrailerKV(r)
+		if r.Intn(2) == 0 {
+			tm += "," + genTrailerKV(r)
+		}
 	}
 	return fmt.Sprintf("rs=%s fs=%d:%s tm=%s", cbList(rs), code, CB(msg), tm)
+}
+
+// genTrailerKV: one allow-listed trailer pair. Binary (-bin) values are arbitrary bytes (gRPC-Go decodes them before the bridge
+// sees them), biased to CR LF / NUL / a forged status line; text values are what a ClientConn may hand over, line breaks included.
+func genTrailerKV(r *rand.Rand) string {
+	k := common.Pick(r, []string{"x-bin", "x-bin", "grpc-status-details-bin", "x-t", "x-u"})
+	var v []byte
+	switch r.Intn(5) {
+	case 0:
+		v = []byte("a\r\ngrpc-status: 0")
+	case 1:
+		v = []byte{0x08, 0x05, 0x12, 0x02, 'n', 'o', 0x1a, 0x0a, 0x0a, 0x08, 't', 'y', 'p', 'e', '.', 'u', 'r', 'l'}
+	case 2:
+		v = common.RandBytes(r, r.Intn(9), []byte("\r\n\x00 \t:ab\xff\xc3\xa9="))
+	case 3:
+		v = common.RandBytes(r, r.Intn(40), nil)
+	default:
+		v = []byte(common.Pick(r, []string{"", "v", "a b", "A/+="}))
+	}
+	if !strings.HasSuffix(k, "-bin") {
+		// text values: what can be a header field value on the target connection (HT, SP..~, obs-text) plus CR / LF, which only
+		// a custom ClientConn can hand over; other control bytes never reach the bridge and are written as they are
+		for i, c := range v {
+			if (c < 0x20 && c != '\t' && c != '\r' && c != '\n') || c == 0x7f {
+				v[i] = 'a'
+			}
+		}
+	}
+	return CB([]byte(k)) + ":" + CB(v)
 }
 
 func genRoute(r *rand.Rand) string {
@@ -1837,8 +1873,16 @@ func (Area) Gen(r *rand.Rand, tier string, emit func(string)) {
 			emit("unesc " + CB(s))
 		default:
 			md := "-"
-			if r.Intn(3) == 0 {
+			switch r.Intn(6) {
+			case 0, 1:
 				md = CB([]byte(common.Pick(r, []string{"x-t", "grpc-status", "grpc-message", "a"}))) + ":" + CB([]byte(common.Pick(r, []string{"", "1", "v w"})))
+			case 2, 3:
+				// values as gRPC-Go hands them over: binary ones decoded (any bytes), others any bytes a custom ClientConn may produce
+				var items []string
+				for n := 1 + r.Intn(3); n > 0; n-- {
+					items = append(items, genTrailerKV(r))
+				}
+				md = strings.Join(items, ",")
 			}
 			emit(fmt.Sprintf("trl %d %s %s", randCode(r), CB(randMsgText(r)), md))
 		}
